@@ -2175,8 +2175,23 @@ rrul_fill_Mly(echs_instant_t *restrict tgt, size_t nti, rrulsp_t rr)
 		} else if (!(M_mask & (1ULL << M))) {
 			/* minute is filtered */
 			continue;
+		} else if (bi383_has_bits_p(&rr->doy)) {
+			/* iterate manually */
+			const unsigned int yd = ymd_get_yd(y, m, d);
+			const unsigned int maxy = (y % 4U) ? 365U : 366U;
+			int tmp;
+			for (bitint_iter_t doyi = 0UL;
+			     (tmp = bi383_next(&doyi, &rr->doy), doyi);) {
+				if (tmp > 0 && (unsigned int)tmp == yd ||
+				    tmp < 0 && maxy + ++tmp == yd) {
+					/* that's clearly a match */
+					goto bang;
+				}
+			}
+			continue;
 		}
 
+	bang:
 		for (ENUM_INIT(e, iS); res < nti && ENUM_COND(e, iS);
 		     ENUM_ITER(e, iS)) {
 			echs_instant_t x = {
@@ -2378,8 +2393,23 @@ rrul_fill_Sly(echs_instant_t *restrict tgt, size_t nti, rrulsp_t rr)
 		} else if (!(S_mask & (1ULL << S))) {
 			/* second is filtered */
 			continue;
+		} else if (bi383_has_bits_p(&rr->doy)) {
+			/* iterate manually */
+			const unsigned int yd = ymd_get_yd(y, m, d);
+			const unsigned int maxy = (y % 4U) ? 365U : 366U;
+			int tmp;
+			for (bitint_iter_t doyi = 0UL;
+			     (tmp = bi383_next(&doyi, &rr->doy), doyi);) {
+				if (tmp > 0 && (unsigned int)tmp == yd ||
+				    tmp < 0 && maxy + ++tmp == yd) {
+					/* that's clearly a match */
+					goto bang;
+				}
+			}
+			continue;
 		}
 
+	bang:
 		tgt[res].y = y;
 		tgt[res].m = m;
 		tgt[res].d = d;
